@@ -99,6 +99,11 @@ _DECOYS += [
     ('list', {}, None, [('item', {}, 'one', [], None), ('item', {}, 'two', [], None),
                         ('story', {}, None, [('storyID', {}, 'N2', [], None)], None)], None),
 ]
+_DECOYS += [
+    ('mosPayloadish', {}, None, [('messageID', {}, '5', [], None), ('roID', {}, 'OTHER', [], None),
+                                 ('mosID', {}, 'nested.mos', [], None), ('roSlug', {}, 'nested slug', [], None)], None),
+    ('\u00dcberschrift', {'gr\u00f6\u00dfe': '1'}, 'non-ASCII names', [('\u4e2d\u6587', {}, 'x', [], None)], None),
+]
 for _d in (1, 2):
     GENERIC_SPECS[_d] = GENERIC_SPECS[_d] + _DECOYS
 
@@ -129,7 +134,11 @@ DURS = ['0', '1', '2', '3', '5', '10', '0.25', '0.5', '1.75', '12.5', '100', '59
         '3.0000001', '86399.99', '1E1', '7.', '.25', ' 6 ']
 DUR = st.sampled_from(DURS)
 TIME_TEXTS = ['2020-01-01T12:30:00', '2021-06-30T23:59:59', '1999-12-31T00:00:01',
-              '2020-02-29T06:00:00.250000', '2020-01-01T12:31', '2021-06-30T23:59']
+              '2020-02-29T06:00:00.250000', '2020-01-01T12:31', '2021-06-30T23:59',
+              # other ISO 8601 spellings: blank instead of 'T', decimal comma (the MOS schema's own form),
+              # basic format, date only, more than six fraction digits
+              '2020-01-01 12:30:00', '2020-01-01T12:30:00,250', '20200101T123000', '2020-01-01',
+              '2020-01-01T12:30:00.123456789']
 TIMES = st.sampled_from(TIME_TEXTS)
 
 
@@ -222,6 +231,8 @@ def _shell_variants():
             id_late=_R.choice([None] * 8 + ['after-first', 'last']),
             p_tail=_R.choice([None] * 6 + ['stray text after p', ' (tail) ']),
             second_md=_R.choice([None] * 5 + ['no-timing', 'no-payload']),
+            item_tail=_R.choice([None] * 6 + ['text after an item', '-']),
+            story_tail=_R.choice([None] * 8 + ['text after a story']),
             odd=_R.choice([None, None, None] + GENERIC_SPECS[1][:6])))
     return out
 
@@ -275,6 +286,12 @@ def story(draw, sid, iids, rich=True, timing_mode='any', for_send=False):
         for i, c in enumerate(s):
             if i % 2 == 0:
                 c.tail = v['tails']
+    if v.get('item_tail'):
+        its_ = [c for c in s if c.tag in ('item', 'storyItem')]
+        if its_:
+            its_[len(its_) // 2].tail = v['item_tail']
+    if v.get('story_tail'):
+        s.tail = v['story_tail']
     if v.get('p_tail'):
         # mixed content: text directly inside the story, after a paragraph
         for c in s:
@@ -310,7 +327,7 @@ def pick(pool, n):
 
 # schema values that are prefixes / case variants of each other
 SCHEMAS = ['http://schema/1', 'http://schema/10', 'http://schema/1/sub', 'HTTP://SCHEMA/1', 'http://schema/2',
-           'http://schema/', 'http://schema/1/', ' http://schema/1']
+           'http://schema/', 'http://schema/1/', ' http://schema/1', "http://o'neill/schema", 'urn:"q"', 'a]b[c=1']
 
 
 @st.composite
@@ -336,7 +353,7 @@ def ro_metadata(draw, n_md):
 
 @st.composite
 def running_order(draw, min_stories=0, max_stories=6, max_items=4, rich=True,
-                  timing_mode='any', simple_ids=False, ro_id=None, allow_no_slug=False):
+                  timing_mode='any', simple_ids=False, ro_id=None, allow_no_slug=False, blank_ids=False):
     """-> dict(ro_xml, ro_id, mid)"""
     pool_s = SIMPLE_S if simple_ids else STORY_POOL
     pool_i = SIMPLE_I if simple_ids else ITEM_POOL
@@ -353,6 +370,14 @@ def running_order(draw, min_stories=0, max_stories=6, max_items=4, rich=True,
         # genuinely random XML-legal text and attribute value somewhere in the document
         stories[draw(st.integers(0, len(stories) - 1))].append(
             E('p', text=draw(text), attrib={'r': draw(text)}))
+    if blank_ids and rich and len(stories) >= 2 and draw(st.integers(0, 9)) == 0:
+        # one story, or one item, whose ID tag is EMPTY: an element no reference can name
+        victim = stories[draw(st.integers(0, len(stories) - 1))]
+        its_ = [c for c in victim if c.tag == 'item']
+        if its_ and draw(st.booleans()):
+            its_[draw(st.integers(0, len(its_) - 1))].find('itemID').text = None
+        elif victim.find('storyID') is not None:
+            victim.find('storyID').text = None
     n_md = draw(st.integers(0, 3)) if rich else draw(st.integers(0, 1))
     md = draw(ro_metadata(n_md))
     # interleave: every metadata child gets a slot among the stories
@@ -431,6 +456,8 @@ def message(draw, state, ro_id, kinds=B.ALL_KINDS, faults='some', rich=True, mid
     """Draw one schema-shaped message against `state` [(sid, [iids])].
     -> (kind_label, msg_xml)"""
     kind = draw(st.sampled_from(list(kinds)))
+    # elements whose ID tag is empty cannot be named by any reference
+    state = [(s, [i for i in its if i is not None]) for s, its in state if s is not None]
     sids = [s for s, _ in state]
     used_i = {i for _, its in state for i in its}
     # "unknown" references: never-used IDs and, in histories, IDs that existed earlier
@@ -641,7 +668,9 @@ def message(draw, state, ro_id, kinds=B.ALL_KINDS, faults='some', rich=True, mid
         raise ValueError(kind)
     if mid is None:
         mid = draw(st.integers(1, 99999))
-    root = B.envelope(body, mid, ncs_id=draw(st.none() | st.just('NCS')))
+    root = B.envelope(body, mid, ncs_id=draw(st.none() | st.just('NCS')),
+                      order=(draw(st.sampled_from([None, None, None, ['mosID', 'body', 'messageID'],
+                                                   ['body', 'ncsID', 'mosID', 'messageID']])) if rich else None))
     return kind, B.tostring(root, pretty=draw(st.booleans()))
 
 
@@ -661,7 +690,7 @@ def step_case(draw, kinds=B.ALL_KINDS, faults='some', rich=True, min_stories=0,
     from . import xmlcmp
     ro = draw(running_order(min_stories=min_stories, max_stories=max_stories,
                             max_items=max_items, rich=rich, timing_mode=timing_mode,
-                            simple_ids=simple_ids, allow_no_slug=allow_no_slug))
+                            simple_ids=simple_ids, allow_no_slug=allow_no_slug, blank_ids=allow_no_slug))
     state = xmlcmp.state_of(ET.fromstring(ro['ro_xml']))
     kind, msg_xml = draw(message(state, ro['ro_id'], kinds=kinds, faults=faults, rich=rich,
                                  degenerate=degenerate, timing_mode=timing_mode))
@@ -670,7 +699,7 @@ def step_case(draw, kinds=B.ALL_KINDS, faults='some', rich=True, min_stories=0,
 
 # --------------------------------------------------------------- enumerators
 
-LAYOUTS = ['none', 'before', 'between', 'after', 'mixed']
+LAYOUTS = ['none', 'before', 'between', 'after', 'mixed', 'anon']
 
 
 def plain_story(sid, iids=(), timed=True):
@@ -684,6 +713,12 @@ def plain_story(sid, iids=(), timed=True):
 def ro_with_layout(sids, layout, ro_id='RO1', mid=1000, items_for=None):
     """Running order text whose stories sit in the given metadata layout."""
     stories = [plain_story(s, (items_for or {}).get(s, ())) for s in sids]
+    if layout == 'anon':
+        # 'mixed' plus a story whose storyID tag is empty (no reference can name it), second in line
+        anon = plain_story('x', ['I0', 'x'])
+        anon.find('storyID').text = None
+        anon.findall('item')[1].find('itemID').text = None
+        stories.insert(min(1, len(stories)), anon)
     md = lambda i: T(f'roMeta{i}', f'm{i}')  # noqa: E731
     if layout == 'none':
         ch = stories
